@@ -77,13 +77,19 @@ def _bind_check(ctx: Ctx, rule: str, caller: Func, call: ast.Call, cls_name: str
 
 def r10_2(ctx: Ctx) -> None:
     f = shared.szf(ctx, "list")
-    calls = [c for c in q.calls(f) if attr_tail(c) == "FileInfo"]
-    ctx.floor("R10.2", len(calls), 1, "FileInfo(...) in list()")
-    for c in calls:
-        _bind_check(ctx, "R10.2", f, c, "FileInfo", {"crc32": "crc32"})
-        # the loop variable is the member described
-        lp = q.enclosing_loops(f, c)
-        ctx.check(bool(lp) and norm(lp[-1].iter) == "self.files", "R10.2", f, c, "one FileInfo per member", "FileInfo objects are not built one per member of self.files")
+    # FileInfo(...) in list() itself or in a private helper it calls per member (`[self._to_file_info(f) for f in self.files]`)
+    deep = [(g, c, via) for g, c, via in q.deep_nodes(ctx, f) if isinstance(c, ast.Call) and attr_tail(c) == "FileInfo"]
+    ctx.floor("R10.2", len(deep), 1, "FileInfo(...) in list()")
+    for g, c, via in deep:
+        _bind_check(ctx, "R10.2", g, c, "FileInfo", {"crc32": "crc32"})
+        # the loop (or comprehension) variable is the member described
+        at = via if via is not None else c
+        lp = q.enclosing_loops(f, at)
+        per_member = bool(lp) and norm(lp[-1].iter) == "self.files"
+        if not per_member:
+            per_member = any(isinstance(n, (ast.ListComp, ast.GeneratorExp)) and any(x is at for x in ast.walk(n.elt)) and norm(n.generators[0].iter) == "self.files"
+                             for n in walk(f.node))
+        ctx.check(per_member, "R10.2", f, at, "one FileInfo per member", "FileInfo objects are not built one per member of self.files")
     # ArchiveFile property decoding: crc32 <- 'digest', uncompressed <- 'uncompressed', compressed <- 'compressed', filename <- 'filename'
     af = ctx.prog.cls("ArchiveFile", "py7zr")
     want = {"crc32": "digest", "uncompressed": "uncompressed", "compressed": "compressed", "filename": "filename", "emptystream": "emptystream",
@@ -343,6 +349,8 @@ def r10_9(ctx: Ctx) -> None:
 
 
 def run(ctx: Ctx) -> None:
+    from . import c08 as _c08
+    _c08.r08_14(ctx, rule="R10.10")  # the listed crc32 of a member protected by a folder CRC
     r10_9(ctx)
     r10_1(ctx)
     r10_2(ctx)
